@@ -12,6 +12,23 @@ theorem lane_setLane (s : Sys) (u v : Nat) (l : Lane) (hu : u < s.lanes.length) 
 @[simp] theorem setLane_lanes_length (s : Sys) (u : Nat) (l : Lane) : (s.setLane u l).lanes.length = s.lanes.length := by
   simp [Sys.setLane]
 
+@[simp] theorem setLane_U (s : Sys) (u : Nat) (l : Lane) : (s.setLane u l).U = s.U := rfl
+@[simp] theorem setLane_T (s : Sys) (u : Nat) (l : Lane) : (s.setLane u l).T = s.T := rfl
+@[simp] theorem setLane_limit (s : Sys) (u : Nat) (l : Lane) : (s.setLane u l).limit = s.limit := rfl
+@[simp] theorem setLane_nchunk (s : Sys) (u : Nat) (l : Lane) : (s.setLane u l).nchunk = s.nchunk := rfl
+@[simp] theorem setLane_recycling (s : Sys) (u : Nat) (l : Lane) : (s.setLane u l).recycling = s.recycling := rfl
+@[simp] theorem setLane_lpc (s : Sys) (u : Nat) (l : Lane) : (s.setLane u l).lpc = s.lpc := rfl
+@[simp] theorem setLane_lwait (s : Sys) (u : Nat) (l : Lane) : (s.setLane u l).lwait = s.lwait := rfl
+@[simp] theorem setLane_nchunkL (s : Sys) (u : Nat) (l : Lane) : (s.setLane u l).nchunkL = s.nchunkL := rfl
+@[simp] theorem setLane_nalloc (s : Sys) (u : Nat) (l : Lane) : (s.setLane u l).nalloc = s.nalloc := rfl
+@[simp] theorem setLane_nextBuf (s : Sys) (u : Nat) (l : Lane) : (s.setLane u l).nextBuf = s.nextBuf := rfl
+@[simp] theorem setLane_freed (s : Sys) (u : Nat) (l : Lane) : (s.setLane u l).freed = s.freed := rfl
+@[simp] theorem setLane_reader (s : Sys) (u : Nat) (l : Lane) : (s.setLane u l).reader = s.reader := rfl
+@[simp] theorem setLane_rsig (s : Sys) (u : Nat) (l : Lane) : (s.setLane u l).rsig = s.rsig := rfl
+@[simp] theorem setLane_cheld (s : Sys) (u : Nat) (l : Lane) : (s.setLane u l).cheld = s.cheld := rfl
+@[simp] theorem setLane_returned (s : Sys) (u : Nat) (l : Lane) : (s.setLane u l).returned = s.returned := rfl
+@[simp] theorem setLane_eofs (s : Sys) (u : Nat) (l : Lane) : (s.setLane u l).eofs = s.eofs := rfl
+
 /-- the part of a lane that is not a wait flag -/
 def Lane.core (l : Lane) : Option Chunk × Bool × Option Chunk × Bool × UPc := (l.inbox, l.inEod, l.outbox, l.outEod, l.upc)
 
